@@ -397,7 +397,52 @@ enum Clause {
     Order(String, bool),
 }
 
+/// Expressions nest by recursion in the grammar; bound the depth so that hostile input
+/// (thousands of nested parentheses or NOTs) is answered with an error instead of
+/// overflowing the stack of the thread that parses it.
+const MAX_EXPR_NESTING: usize = 256;
+
+fn expr_nesting_too_deep(input: &str) -> bool {
+    let mut depth = 0usize;
+    let mut nots = 0usize;
+    let mut in_string = false;
+    let mut word = String::new();
+    for c in input.chars() {
+        if in_string {
+            if c == '"' {
+                in_string = false;
+            }
+            continue;
+        }
+        if c.is_ascii_alphanumeric() || c == '_' {
+            word.push(c);
+            continue;
+        }
+        if word.eq_ignore_ascii_case("NOT") {
+            nots += 1;
+        }
+        word.clear();
+        match c {
+            '"' => in_string = true,
+            '(' => {
+                depth += 1;
+                if depth > MAX_EXPR_NESTING {
+                    return true;
+                }
+            }
+            ')' => depth = depth.saturating_sub(1),
+            _ => {}
+        }
+    }
+    nots > MAX_EXPR_NESTING
+}
+
 pub fn parse(input: &str) -> Result<Command, ParseError> {
+    if expr_nesting_too_deep(input) {
+        return Err(ParseError::UnexpectedToken(
+            "PEG parse error: expression nested too deeply".to_string(),
+        ));
+    }
     sneldb_query::query(input).map_err(map_peg_error)
 }
 
